@@ -1,17 +1,17 @@
 CONSTANTS
   FlowSet = {"flows/a.yaml", "flows/b.yaml"}
   Endpoints = {"configuration", "apply_flows"}
-  Methods = {"PUT", "POST"}
-  MaxNth = 4
-  WithBadB64 = TRUE
+  Methods = {"PUT"}
+  MaxNth = 2
+  WithBadB64 = FALSE
   MxOld = {"m1"}
   GwOld = {"none"}
-  MaxUpdates = 1
-  PayloadCats = {1, 4, 5}
+  MaxUpdates = 2
+  PayloadCats = {1}
   AnchorFlows = {"flows/a.yaml"}
   Paths <- PathsMC
   Cat <- CatMC
-  Txns = {1}
+  Txns = {}
   RestoreWrongDirection = FALSE
   PublishBeforeInit = FALSE
   ContinueAfter405 = FALSE
@@ -19,7 +19,7 @@ CONSTANTS
   NoReloadAfterRestore = FALSE
   MetricsToDefaultPath = FALSE
   StaleBackup = FALSE
-  RecordHistory = FALSE
+  RecordHistory = TRUE
 SPECIFICATION SpecMC
-INVARIANTS DiskAtomic BehavAtomic NeverHalf OneConfig
+INVARIANT Emit
 CHECK_DEADLOCK FALSE
